@@ -16,6 +16,9 @@ import (
 const straceSyscalls = "openat,creat,write,pwrite64,fsync,fdatasync,close,rename,renameat,renameat2"
 
 // runUnderStrace runs this test binary's TestC11Driver as a subprocess under strace and returns the syscall log.
+// straceEnv: working directory and $TMPDIR of the next driver process ("" = inherit). Set by the bare-name engine.
+var straceCwd, straceTmpDir string
+
 func runUnderStrace(specPath, logPath string) error {
 	exe, err := os.Executable()
 	if err != nil {
@@ -24,6 +27,12 @@ func runUnderStrace(specPath, logPath string) error {
 	cmd := exec.Command("strace", "-f", "-xx", "-s", "16000000", "-e", "trace="+straceSyscalls, "-o", logPath,
 		exe, "-test.run", "^TestC11Driver$", "-test.count=1")
 	cmd.Env = append(os.Environ(), "C11_DRIVER_SPEC="+specPath)
+	if straceCwd != "" {
+		cmd.Dir = straceCwd
+	}
+	if straceTmpDir != "" {
+		cmd.Env = append(cmd.Env, "TMPDIR="+straceTmpDir)
+	}
 	out, err := cmd.CombinedOutput()
 	if err != nil {
 		return fmt.Errorf("driver under strace failed: %v\n%s", err, out)
@@ -123,7 +132,24 @@ func parseStrace(logPath, dir, target string, canonical bool) (ops []FsOp, realN
 	}
 	names := map[string]string{}
 	canon := func(p string) (string, bool) {
+		if !filepath.IsAbs(p) && straceCwd != "" {
+			p = filepath.Join(straceCwd, p) // the driver runs with this working directory
+		}
 		p = filepath.Clean(p)
+		if straceTmpDir != "" && filepath.Dir(p) == filepath.Clean(straceTmpDir) {
+			// a file in $TMPDIR instead of the target's directory: kept visible under a name no protocol step has
+			b := filepath.Base(p)
+			if c, ok := names["$TMPDIR/"+b]; ok {
+				return c, true
+			}
+			c := fmt.Sprintf("$TMPDIR/%s.tmp%d", target, len(names))
+			if !canonical {
+				c = "$TMPDIR/" + b
+			}
+			names["$TMPDIR/"+b] = c
+			realNames[c] = p
+			return c, true
+		}
 		if filepath.Dir(p) != filepath.Clean(dir) {
 			return "", false
 		}
